@@ -119,7 +119,7 @@ def run_meta(ctx, variants_fn, n_valid, n_mut, what, rule, trusted, k=4):
             addp(pipes.gen_valid_p(rng, threads=(i % 2 == 1), n_pipes=rng.choice([1, 2, 2]))[0], "valid-pipelines")
         for i in range(max(1, n_mut // 2) * scale):
             # every fourth mutant is one whose detection could depend on the position in an order-free array
-            only = ("p_filter_ill_typed_beside_group", "p_filter_ill_typed", "p_output_type_mismatch") if i % 4 == 0 else ("C08", "C09")
+            only = ("p_filter_ill_typed_beside_group", "p_filter_ill_typed", "p_output_type_mismatch", "p_checkpoint_compares_written", "p_write_settable_attribute") if i % 3 == 0 else ("C08", "C09")
             s, name, owner, desc = pipes.mutate_p(rng, only=only, threads=(i % 2 == 1))
             if name in M.FORCE_ID_SPELLING or True:
                 addp(s, "mutant-pipelines", name, owner, desc)
